@@ -17,6 +17,8 @@ import GqlVerif.Proofs.ModuleOkInputsClasses
 import GqlVerif.Proofs.C01NestedW
 import GqlVerif.Proofs.C01NestedAbsW
 import GqlVerif.Proofs.C01AliasFragW
+import GqlVerif.Proofs.C01NestedGenW
+import GqlVerif.Proofs.C01NestedGenXW
 open GqlVerif.C03
 #print axioms ok_iff_accepts
 #print axioms null_at_non_null_rejected
@@ -107,3 +109,7 @@ open GqlVerif.C03
 -- AliasFragOp (P48)
 #print axioms GqlVerif.C01AF.aliasfrag_precise_iff
 #print axioms GqlVerif.C01AF.af_precise
+-- NestedGenOp / NestedGen2Op (P47)
+#print axioms GqlVerif.C01NG.nestedgen_precise_iff
+#print axioms GqlVerif.C01NG.ng_precise
+#print axioms GqlVerif.C01NX.nestedgen2_precise_iff
